@@ -57,9 +57,23 @@ def main():
             if out[-1]['rc'] != 1:
                 out.append(run_check(pid, 'thorough', env))
             caught = any(o['rc'] == 1 and o['violations'] for o in out)
+            others = {}
+            if not caught:
+                # the change may break a neighbouring property as well: try the other claimed checks (quick)
+                man = json.load(open(os.path.join(V, 'MANIFEST.json')))
+                for c in man['checks']:
+                    q = c['property_id']
+                    if q == pid:
+                        continue
+                    o = run_check(q, 'quick', env)
+                    if o['rc'] == 1 and o['violations']:
+                        others[q] = o
             results[sid] = {'property': pid, 'caught': caught, 'runs': out,
-                            'by': next((o['tier'] for o in out if o['rc'] == 1), None)}
-            print(sid, pid, 'CAUGHT by ' + results[sid]['by'] if caught else 'MISSED', out[-1]['tail'], flush=True)
+                            'by': next((o['tier'] for o in out if o['rc'] == 1), None),
+                            'caught_by_other_checks': sorted(others), 'other_runs': others}
+            print(sid, pid, 'CAUGHT by ' + results[sid]['by'] if caught else
+                  ('MISSED by own check; caught by ' + ','.join(sorted(others)) if others else 'MISSED'),
+                  out[-1]['tail'], flush=True)
         except AssertionError as e:
             results[sid] = {'property': pid, 'caught': None, 'error': str(e)}
             print(sid, 'ERROR', e, flush=True)
